@@ -304,7 +304,7 @@ def run(ctx):
     # ------------------------------------------------ bounded copies into sun_path
     n_cp = 0
     for f in P.fns.values():
-        for i in f.calls("strcpy", "strcat", "sprintf", "memcpy", "stpcpy"):
+        for i in f.calls("strcpy", "strcat", "sprintf", "memcpy", "stpcpy", "strncpy", "strlcpy", "snprintf", "memmove", "std::copy", "copy"):
             dst = f.text(f.nodes[i]["args"][0])
             if "sun_path" not in dst:
                 continue
@@ -315,9 +315,10 @@ def run(ctx):
             srcobj = f.text(f.nodes[i]["args"][1]).replace(".c_str()", "")
             bounded = any(((re.match(r"^\(%s\.(size|length)\(\) < sizeof\(.*sun_path.*\)\)$" % re.escape(srcobj), k) and p is True)) for k, p in g)
             ctx.check(bounded, "bounded-copy:sun_path:" + short(f), "bounded_copy", f.loc(i),
-                      "the copy into sun_path is dominated by source.size() < sizeof(sun_path)",
-                      "strcpy into the fixed-size sun_path without a length test: an over-long socket path overruns the address "
-                      "(and the members behind it)", witness_path(f, fl_, i))
+                      "the copy into sun_path is dominated by source.size() < sizeof(sun_path) (strictly: the terminating NUL fits)",
+                      "%s into the fixed-size sun_path is not dominated by source.size() < sizeof(sun_path): an over-long socket path overruns the "
+                      "address, and a path of exactly sizeof(sun_path) bytes is left without a terminating NUL although unlink/connect/logging use "
+                      "it as a C string (server and client then also disagree on which lengths are valid)" % f.nodes[i].get("cname"), witness_path(f, fl_, i))
     ctx.counters["sun_path_copies"] = n_cp
     ctx.floor("sun_path_copies", 2, "copies into sockaddr_un::sun_path (server and client)")
 
